@@ -756,15 +756,26 @@ class SymByteArray(SymSeq):
             raise ValueError("byte must be in range(0, 256)")
         self._items.append(v)
 
+    def _upgrade(self, o):
+        """become a bytearray of symbolic length (same object identity: writers keep references to it)"""
+        items = self._items
+        self.__class__ = SymBlob
+        self.__dict__.clear()
+        self.segs = SymBlob([("lit", items)] + SymBlob.of(o).segs).segs
+        self.kind = "bytearray"
+
     def extend(self, o):
+        if isinstance(o, SymBlob) and not all(s[0] == "lit" for s in o.segs):
+            return self._upgrade(o)
         self._items.extend(seq_items(o))
 
     def reverse(self):
         self._items.reverse()
 
     def __iadd__(self, o):
-        if isinstance(o, SymBlob):
-            return SymBlob([("lit", self._items)] + o.segs, "bytearray")
+        if isinstance(o, SymBlob) and not all(s[0] == "lit" for s in o.segs):
+            self._upgrade(o)
+            return self
         self._items.extend(seq_items(o))
         return self
 
@@ -1437,6 +1448,16 @@ class SymBlob:
 
     def tobytes(self):
         return SymBlob(self.segs, "bytes")
+
+    def extend(self, o):
+        if self.kind != "bytearray":
+            raise AttributeError("'bytes' object has no attribute 'extend'")
+        self.segs[:] = SymBlob(self.segs + SymBlob.of(o).segs).segs
+
+    def append(self, v):
+        if self.kind != "bytearray":
+            raise AttributeError("'bytes' object has no attribute 'append'")
+        self.segs[:] = SymBlob(self.segs + [("lit", [v])]).segs
 
     def ljust(self, width, fill=b" "):
         pad = width - self.sym_len()
